@@ -20,6 +20,7 @@ pub async fn run_other(kind: &str, case: &Value) -> Value {
         "demux" => run_demux(case).await,
         "drop-close" => run_drop_close(case).await,
         "backlog" => run_backlog(case).await,
+        "oversized" => run_oversized(case).await,
         "big-request" => run_big_request(case).await,
         _ => json!({"verdict": "harness-error", "why": format!("unknown case kind {kind}")}),
     }
@@ -998,4 +999,93 @@ async fn run_backlog(case: &Value) -> Value {
     symptoms.sort();
     symptoms.dedup();
     json!({"verdict": if symptoms.is_empty() { "held" } else { "violated" }, "symptoms": symptoms, "client": out})
+}
+
+
+/// C14 over the real transports: a reply of absurd size that is also damaged (its <data> is never
+/// closed) is followed, in the same write, by the valid reply to the next request. The first
+/// request gets an error; the second one's reply is still delivered.
+async fn run_oversized(case: &Value) -> Value {
+    let tr = Tr::parse(case["tr"].as_str().unwrap_or("tls")).unwrap();
+    let size = case["size"].as_u64().unwrap_or(100_000) as usize;
+    let hello = hello_bytes(&["urn:ietf:params:netconf:base:1.0"]);
+    let mut lis = match Listener::bind(tr).await {
+        Ok(l) => l,
+        Err(e) => return json!({"verdict": "harness-error", "why": format!("bind: {e}")}),
+    };
+    let ep = lis.endpoint.clone();
+    let pw = lis.ssh_password.clone();
+    let cl = tokio::spawn(async move {
+        async fn go<T: netconf::transport::Transport + 'static>(s: Result<Session<T>, netconf::Error>) -> Value {
+            let mut s = match s {
+                Ok(s) => s,
+                Err(e) => return json!({"establish": format!("{e:?}")}),
+            };
+            let (Ok(f1), Ok(f2)) = (s.rpc::<Get, _>(|b| b.finish()).await, s.rpc::<Get, _>(|b| b.finish()).await) else { return json!({"establish": "rpc failed"}) };
+            let r1 = match tokio::time::timeout(Duration::from_secs(6), f1).await {
+                Ok(Ok(v)) => format!("ok:{}", crate::util::clip(&v.to_string(), 40)),
+                Ok(Err(e)) => format!("err:{}", crate::util::clip(&format!("{e:?}"), 120)),
+                Err(_) => "timeout".into(),
+            };
+            let r2 = match tokio::time::timeout(Duration::from_secs(6), f2).await {
+                Ok(Ok(v)) => format!("ok:{v}"),
+                Ok(Err(e)) => format!("err:{}", crate::util::clip(&format!("{e:?}"), 120)),
+                Err(_) => "timeout".into(),
+            };
+            json!({"establish": "ok", "first": r1, "second": r2})
+        }
+        let to = Duration::from_secs(6);
+        match (tr, ep) {
+            (Tr::Tls, Endpoint::Tcp(p)) => match tokio::time::timeout(to, connect_tls(p)).await {
+                Ok(s) => go(s).await,
+                Err(_) => json!({"establish": "TIMEOUT"}),
+            },
+            (Tr::Ssh, Endpoint::Tcp(p)) => match tokio::time::timeout(to, Session::ssh(("127.0.0.1", p), "vh".to_string(), pw.parse().unwrap())).await {
+                Ok(s) => go(s).await,
+                Err(_) => json!({"establish": "TIMEOUT"}),
+            },
+            (Tr::Cli, Endpoint::Unix(path)) => {
+                let exe = std::env::current_exe().unwrap().to_string_lossy().into_owned();
+                let p = path.to_string_lossy().into_owned();
+                match tokio::time::timeout(to, Session::verif_junos_local(&exe, &["fake-cli", &p])).await {
+                    Ok(s) => go(s).await,
+                    Err(_) => json!({"establish": "TIMEOUT"}),
+                }
+            }
+            _ => json!({"establish": "harness"}),
+        }
+    });
+    let mut conn = match tokio::time::timeout(Duration::from_secs(8), lis.accept()).await {
+        Ok(Ok(c)) => c,
+        other => return json!({"verdict": "harness-error", "why": format!("accept: {:?}", other.map(|r| r.map(|_| ())))}),
+    };
+    let _ = conn.send_unit(&hello).await;
+    let mut from_client = Vec::new();
+    let got = conn.read_messages(&mut from_client, 3, Duration::from_secs(5)).await;
+    // reply 1: <data> and `size` bytes of text, never closed; all but its last kilobyte first ...
+    let mut r1 = format!("<rpc-reply xmlns=\"{}\" message-id=\"1\"><data>", crate::memwire::BASE_NS).into_bytes();
+    r1.extend(std::iter::repeat(b"junk ".iter().copied()).flatten().take(size));
+    r1.extend_from_slice(MARKER.as_bytes());
+    let cut = r1.len().saturating_sub(1000);
+    let _ = conn.send_unit(&r1[..cut]).await;
+    tokio::time::sleep(Duration::from_millis(80)).await;
+    // ... then its end, its delimiter and the complete reply 2 in ONE unit
+    let mut last = r1[cut..].to_vec();
+    last.extend(reply_bytes(2, "tag-2", 0, false));
+    let _ = conn.send_unit(&last).await;
+    let out = tokio::time::timeout(Duration::from_secs(20), cl).await.ok().and_then(Result::ok).unwrap_or(json!({"establish": "client task lost"}));
+    conn.close(CloseManner::Clean).await;
+    if out["establish"] != "ok" || !got {
+        return json!({"verdict": "not-exercised", "why": format!("setup: {out}")});
+    }
+    let mut symptoms: Vec<String> = Vec::new();
+    match out["first"].as_str().unwrap_or("") {
+        s if s.starts_with("err:") => {}
+        s if s.starts_with("timeout") => symptoms.push("damaged-oversized-reply:its-request-never-resolved".into()),
+        _ => symptoms.push("damaged-oversized-reply:accepted".into()),
+    }
+    if !out["second"].as_str().map_or(false, |s| s.starts_with("ok:tag-2")) {
+        symptoms.push("reply-behind-the-oversized-one-not-delivered".into());
+    }
+    json!({"verdict": if symptoms.is_empty() { "held" } else { "violated" }, "symptoms": symptoms, "client": out, "size": size})
 }
